@@ -309,8 +309,9 @@ theorem lexStep_ua (t : List Nat) (bol sp : Bool) : lexStep (117 :: 39 :: t) bol
 theorem lexStep_La (t : List Nat) (bol sp : Bool) : lexStep (76 :: 39 :: t) bol sp = chrTok [76, 39] t bol sp := rfl
 theorem lexStep_Ua (t : List Nat) (bol sp : Bool) : lexStep (85 :: 39 :: t) bol sp = chrTok [85, 39] t bol sp := rfl
 
-theorem strTok_append (pre a rest : List Nat) (bol sp : Bool) (T : Tok)
-    (h : strTok pre a bol sp = .tok T []) : strTok pre (a ++ rest) bol sp = .tok T rest := by
+theorem strTok_append (pre a rest : List Nat) (b1 p1 b2 p2 : Bool) (k : Kind) (x : List Nat)
+    (h : strTok pre a b1 p1 = .tok ⟨k, x, b1, p1⟩ []) :
+    strTok pre (a ++ rest) b2 p2 = .tok ⟨k, x, b2, p2⟩ rest := by
   unfold strTok at h ⊢
   cases hs : strEnd a with
   | error e => rw [hs] at h; cases h
@@ -322,11 +323,13 @@ theorem strTok_append (pre a rest : List Nat) (bol sp : Bool) (T : Tok)
     · rename_i he
       rw [if_pos he]
       injection h with h1 h2
-      rw [h1, h2]; rfl
+      injection h1 with hk hx
+      rw [hk, hx, h2]; rfl
     · cases h
 
-theorem chrTok_append (pre a rest : List Nat) (bol sp : Bool) (T : Tok)
-    (h : chrTok pre a bol sp = .tok T []) : chrTok pre (a ++ rest) bol sp = .tok T rest := by
+theorem chrTok_append (pre a rest : List Nat) (b1 p1 b2 p2 : Bool) (k : Kind) (x : List Nat)
+    (h : chrTok pre a b1 p1 = .tok ⟨k, x, b1, p1⟩ []) :
+    chrTok pre (a ++ rest) b2 p2 = .tok ⟨k, x, b2, p2⟩ rest := by
   unfold chrTok at h ⊢
   cases hs : charEnd a with
   | error e => rw [hs] at h; cases h
@@ -335,7 +338,8 @@ theorem chrTok_append (pre a rest : List Nat) (bol sp : Bool) (T : Tok)
     rw [charEnd_append a r.1 r.2 rest hs]
     simp only at h ⊢
     injection h with h1 h2
-    rw [h1, h2]; rfl
+    injection h1 with hk hx
+    rw [hk, hx, h2]; rfl
 
 theorem pre_ne (x c : Nat) (q t : List Nat) (h : c ≠ x) : (x :: q).isPrefixOf (c :: t) = false := by
   rw [List.isPrefixOf_cons_cons, beq_false_of_ne (Ne.symm h)]; rfl
@@ -455,8 +459,8 @@ theorem headIs_false_of (p q : Nat → Bool) (rest : List Nat) (h : headIs p res
     | false => rfl
     | true => rw [hpq r hq] at h; cases h
 
-theorem lexStep_append (c : Nat) (a rest : List Nat) (k : Kind) (bol sp : Bool)
-    (h : lexStep (c :: a) bol sp = .tok ⟨k, c :: a, bol, sp⟩ [])
+theorem lexStep_append (c : Nat) (a rest : List Nat) (k : Kind) (b1 p1 bol sp : Bool)
+    (h : lexStep (c :: a) b1 p1 = .tok ⟨k, c :: a, b1, p1⟩ [])
     (hf : noFuse c a rest) :
     lexStep (c :: a ++ rest) bol sp = .tok ⟨k, c :: a, bol, sp⟩ rest := by
   rw [lexStep.eq_2] at h
@@ -508,48 +512,48 @@ theorem lexStep_append (c : Nat) (a rest : List Nat) (k : Kind) (bol sp : Bool)
   · rw [if_pos hq] at h
     have := eq_of_beq hq; subst this
     rw [List.cons_append, lexStep_q]
-    exact strTok_append _ _ _ _ _ _ h
+    exact strTok_append _ _ _ _ _ _ _ _ _ h
   rw [if_neg hq] at h
   by_cases hp1 : [117, 56, 34].isPrefixOf (c :: a) = true
   · rw [if_pos hp1] at h
     obtain ⟨rfl, a', rfl⟩ := pre3_true _ _ _ _ _ hp1
-    exact strTok_append _ _ _ _ _ _ h
+    exact strTok_append _ _ _ _ _ _ _ _ _ h
   rw [if_neg hp1] at h
   by_cases hp2 : [117, 34].isPrefixOf (c :: a) = true
   · rw [if_pos hp2] at h
     obtain ⟨rfl, a', rfl⟩ := pre2_true _ _ _ _ hp2
-    exact strTok_append _ _ _ _ _ _ h
+    exact strTok_append _ _ _ _ _ _ _ _ _ h
   rw [if_neg hp2] at h
   by_cases hp3 : [76, 34].isPrefixOf (c :: a) = true
   · rw [if_pos hp3] at h
     obtain ⟨rfl, a', rfl⟩ := pre2_true _ _ _ _ hp3
-    exact strTok_append _ _ _ _ _ _ h
+    exact strTok_append _ _ _ _ _ _ _ _ _ h
   rw [if_neg hp3] at h
   by_cases hp4 : [85, 34].isPrefixOf (c :: a) = true
   · rw [if_pos hp4] at h
     obtain ⟨rfl, a', rfl⟩ := pre2_true _ _ _ _ hp4
-    exact strTok_append _ _ _ _ _ _ h
+    exact strTok_append _ _ _ _ _ _ _ _ _ h
   rw [if_neg hp4] at h
   by_cases hap : (c == 39) = true
   · rw [if_pos hap] at h
     have := eq_of_beq hap; subst this
     rw [List.cons_append, lexStep_a]
-    exact chrTok_append _ _ _ _ _ _ h
+    exact chrTok_append _ _ _ _ _ _ _ _ _ h
   rw [if_neg hap] at h
   by_cases hp5 : [117, 39].isPrefixOf (c :: a) = true
   · rw [if_pos hp5] at h
     obtain ⟨rfl, a', rfl⟩ := pre2_true _ _ _ _ hp5
-    exact chrTok_append _ _ _ _ _ _ h
+    exact chrTok_append _ _ _ _ _ _ _ _ _ h
   rw [if_neg hp5] at h
   by_cases hp6 : [76, 39].isPrefixOf (c :: a) = true
   · rw [if_pos hp6] at h
     obtain ⟨rfl, a', rfl⟩ := pre2_true _ _ _ _ hp6
-    exact chrTok_append _ _ _ _ _ _ h
+    exact chrTok_append _ _ _ _ _ _ _ _ _ h
   rw [if_neg hp6] at h
   by_cases hp7 : [85, 39].isPrefixOf (c :: a) = true
   · rw [if_pos hp7] at h
     obtain ⟨rfl, a', rfl⟩ := pre2_true _ _ _ _ hp7
-    exact chrTok_append _ _ _ _ _ _ h
+    exact chrTok_append _ _ _ _ _ _ _ _ _ h
   rw [if_neg hp7] at h
   have hnum0 : isNumStart (c :: a) = false := by
     rw [isNumStart_iff]; exact Bool.eq_false_iff.mpr hnum
@@ -650,6 +654,273 @@ theorem lexStep_append (c : Nat) (a rest : List Nat) (k : Kind) (bol sp : Bool)
   rw [← List.cons_append, List.take_left', List.drop_left', ← hk]
   · rfl
   · rfl
+
+
+/-! ### when nothing fuses: end of text, white space, and `need_space = false` -/
+
+theorem noFuse_nil (c : Nat) (a : List Nat) : noFuse c a [] := by
+  refine ⟨fun _ => ⟨rfl, ?_⟩, fun _ _ => rfl, fun _ _ _ _ => ⟨?_, ?_⟩⟩
+  · simp [headIs]
+  · simp [punctStop, headIs]
+  · simp [headIs]
+
+/-- a blank or a newline never fuses with what precedes it -/
+theorem noFuse_blank (c : Nat) (a : List Nat) (r : Nat) (x : List Nat) (hr : r = 32 ∨ r = 10) :
+    noFuse c a (r :: x) := by
+  refine ⟨fun _ => ⟨?_, ?_⟩, fun _ _ => ?_, fun _ _ _ _ => ⟨?_, ?_⟩⟩
+  · simp only [headIs]; rcases hr with rfl | rfl <;> decide
+  · have : ppSignChars.contains r = false := by rcases hr with rfl | rfl <;> decide
+    simp only [headIs, this, Bool.and_false]
+  · simp only [headIs]; rcases hr with rfl | rfl <;> decide
+  · have : ops.contains r = false := by rcases hr with rfl | rfl <;> decide
+    simp only [punctStop, headIs, this, Bool.and_false]
+  · have : isDigit r = false := by rcases hr with rfl | rfl <;> decide
+    simp only [headIs, this, Bool.and_false]
+
+/-- **soundness of `need_space` at the character level**: when `need_space` answers "no space needed" for the
+    spellings `c :: a` and `b :: bt`, nothing that starts with `b` fuses with `c :: a` -/
+theorem noFuse_of_needSpace (c : Nat) (a : List Nat) (b : Nat) (bt x : List Nat)
+    (h : needSpace (c :: a) (b :: bt) = false) : noFuse c a (b :: x) := by
+  unfold noFuse
+  unfold needSpace at h
+  rw [getLast?_cons_lastOr] at h
+  simp only [List.head?_cons] at h
+  generalize lastOr c a = l at h ⊢
+  unfold needSpaceCore at h
+  split at h
+  · cases h
+  rename_i h1
+  split at h
+  · cases h
+  rename_i h2
+  split at h
+  · cases h
+  rename_i h3
+  refine ⟨fun hn => ⟨?_, ?_⟩, fun _ hw => ?_, fun _ _ _ _ => ⟨?_, ?_⟩⟩
+  · rw [hn] at h2
+    simp only [headIs]
+    simp only [Bool.true_and, Bool.or_eq_true, not_or, Bool.not_eq_true] at h2
+    rw [h2.1.2, Bool.false_or]
+    simpa using h2.1.1
+  · rw [hn] at h2
+    simp only [headIs]
+    simp only [Bool.true_and, Bool.or_eq_true, not_or, Bool.not_eq_true] at h2
+    have h22 := h2.2
+    apply Bool.eq_false_iff.mpr
+    intro hh
+    simp only [ppExpChars, ppSignChars, Bool.and_eq_true, List.contains_eq_mem, List.mem_cons,
+      List.not_mem_nil, or_false, decide_eq_true_eq] at hh
+    simp only [Bool.and_eq_false_iff, Bool.or_eq_false_iff, List.contains_eq_mem, List.mem_cons,
+      List.not_mem_nil, or_false, decide_eq_false_iff_not, beq_eq_false_iff_ne] at h22
+    omega
+  · rw [hw] at h1
+    simp only [headIs]
+    simp only [Bool.true_and, Bool.or_eq_true, not_or, Bool.not_eq_true] at h1
+    cases hb2 : isIdent2 b with
+    | true => rw [isIdent2_isWordChar b hb2] at h1; exact absurd h1.1.1 (by simp)
+    | false => rw [h1.1.2, h1.2]; rfl
+  · exact Bool.eq_false_iff.mpr (by simpa [punctStop, headIs] using h)
+  · simp only [headIs]; exact Bool.eq_false_iff.mpr h3
+
+
+/-! ### inversion of a token-producing step: flags, partition of the input, non-empty spelling -/
+
+theorem ppTake_partition (s : List Nat) : (ppTake s).1 ++ (ppTake s).2 = s := by
+  induction s using ppTake.induct with
+  | case1 => rfl
+  | case2 c d t' hc ih => rw [ppTake_cons_exp c d t' hc]; simp [ih]
+  | case3 c hc => simp [headIs] at hc
+  | case4 c t hc hal ih => rw [ppTake_cons_alnum c t hc hal]; simp [ih]
+  | case5 c t hc hal => rw [ppTake_cons_stop c t hc hal]; rfl
+
+theorem strEnd_partition (a : List Nat) : ∀ r, strEnd a = .ok r → r.1 ++ r.2 = a := by
+  induction a using strEnd.induct with
+  | case1 => intro r h; simp [strEnd] at h
+  | case2 c t hc => intro r h; rw [strEnd_cons_quote c t hc] at h; cases h; rfl
+  | case3 c t h1 h2 =>
+    intro r h
+    cases t with
+    | nil => rw [strEnd.eq_2, if_neg h1, if_pos h2] at h; cases h
+    | cons d t' => rw [strEnd.eq_3, if_neg h1, if_pos h2] at h; cases h
+  | case4 c h1 h2 h3 => intro r h; rw [strEnd.eq_2, if_neg h1, if_neg h2, if_pos h3] at h; cases h
+  | case5 c h1 h2 h3 d t r0 hr ih =>
+    intro r h
+    rw [strEnd_cons_bs c d t h1 h2 h3, hr] at h
+    cases h
+    simp [ih r0 hr]
+  | case6 c h1 h2 h3 d t e he ih => intro r h; rw [strEnd_cons_bs c d t h1 h2 h3, he] at h; cases h
+  | case7 c t h1 h2 h3 r0 hr ih =>
+    intro r h
+    rw [strEnd_cons_other c t h1 h2 h3, hr] at h
+    cases h
+    simp [ih r0 hr]
+  | case8 c t h1 h2 h3 e he ih => intro r h; rw [strEnd_cons_other c t h1 h2 h3, he] at h; cases h
+
+theorem findQuote_partition (a : List Nat) : ∀ r, findQuote a = some r → r.1 ++ r.2 = a := by
+  induction a with
+  | nil => intro r h; simp [findQuote] at h
+  | cons c t ih =>
+    intro r h
+    rw [findQuote.eq_2] at h
+    split at h
+    · cases h; rfl
+    · cases hq : findQuote t with
+      | none => rw [hq] at h; cases h
+      | some r0 => rw [hq] at h; cases h; simp [ih r0 hq]
+
+theorem charEnd_partition (a : List Nat) (r : List Nat × List Nat) (h : charEnd a = .ok r) : r.1 ++ r.2 = a := by
+  match a, h with
+  | [], h => simp [charEnd] at h
+  | [c], h =>
+    rw [charEnd.eq_2] at h
+    split at h
+    · cases h
+    · simp [findQuote] at h
+  | c :: d :: t', h =>
+    rw [charEnd.eq_3] at h
+    split at h
+    · split at h
+      · cases h
+      · cases hq : findQuote t' with
+        | none => rw [hq] at h; cases h
+        | some r0 => rw [hq] at h; cases h; simp [findQuote_partition t' r0 hq]
+    · cases hq : findQuote (d :: t') with
+      | none => rw [hq] at h; cases h
+      | some r0 => rw [hq] at h; cases h; simp [findQuote_partition (d :: t') r0 hq]
+
+theorem identTake_partition (s : List Nat) : (identTake s).1 ++ (identTake s).2 = s := by
+  induction s with
+  | nil => rfl
+  | cons c t ih =>
+    rw [identTake.eq_2]
+    split
+    · simp [ih]
+    · rfl
+
+/-- what a token-producing step looks like -/
+structure TokOk (s : List Nat) (bol sp : Bool) (t : Tok) (r : List Nat) : Prop where
+  bol : t.atBol = bol
+  sp : t.hasSpace = sp
+  part : t.text ++ r = s
+  ne : t.text ≠ []
+
+theorem strTok_inv (pre a : List Nat) (bol sp : Bool) (t : Tok) (r : List Nat) (hpre : pre ≠ [])
+    (h : strTok pre a bol sp = .tok t r) : TokOk (pre ++ a) bol sp t r := by
+  unfold strTok at h
+  cases hs : strEnd a with
+  | error e => rw [hs] at h; cases h
+  | ok r0 =>
+    rw [hs] at h
+    simp only at h
+    split at h
+    · injection h with h1 h2
+      subst h1; subst h2
+      exact ⟨rfl, rfl, by simp [strEnd_partition a r0 hs], by simp [hpre]⟩
+    · cases h
+
+theorem chrTok_inv (pre a : List Nat) (bol sp : Bool) (t : Tok) (r : List Nat) (hpre : pre ≠ [])
+    (h : chrTok pre a bol sp = .tok t r) : TokOk (pre ++ a) bol sp t r := by
+  unfold chrTok at h
+  cases hs : charEnd a with
+  | error e => rw [hs] at h; cases h
+  | ok r0 =>
+    rw [hs] at h
+    simp only at h
+    injection h with h1 h2
+    subst h1; subst h2
+    exact ⟨rfl, rfl, by simp [charEnd_partition a r0 hs], by simp [hpre]⟩
+
+theorem lexStep_tok_inv (s : List Nat) (bol sp : Bool) (t : Tok) (r : List Nat)
+    (h : lexStep s bol sp = .tok t r) : TokOk s bol sp t r := by
+  cases s with
+  | nil => simp [lexStep] at h
+  | cons c a =>
+  rw [lexStep.eq_2] at h
+  by_cases hlc : [47, 47].isPrefixOf (c :: a) = true
+  · rw [if_pos hlc] at h
+    generalize skipLine (List.drop 1 a) = o at h
+    cases o <;> cases h
+  rw [if_neg hlc] at h
+  by_cases hbc : [47, 42].isPrefixOf (c :: a) = true
+  · rw [if_pos hbc] at h
+    generalize findCommentEnd (List.drop 1 a) = o at h
+    cases o <;> cases h
+  rw [if_neg hbc] at h
+  by_cases hnl : (c == 10) = true
+  · rw [if_pos hnl] at h; cases h
+  rw [if_neg hnl] at h
+  by_cases hsp : isSpace c = true
+  · rw [if_pos hsp] at h; cases h
+  rw [if_neg hsp] at h
+  by_cases hnum : (isDigit c || c == 46 && headIs isDigit a) = true
+  · rw [if_pos hnum] at h
+    simp only at h
+    injection h with h1 h2
+    subst h1; subst h2
+    exact ⟨rfl, rfl, by simp [ppTake_partition a], by simp⟩
+  rw [if_neg hnum] at h
+  by_cases hq : (c == 34) = true
+  · rw [if_pos hq] at h
+    have := eq_of_beq hq; subst this
+    exact strTok_inv [34] a bol sp t r (by simp) h
+  rw [if_neg hq] at h
+  by_cases hp1 : [117, 56, 34].isPrefixOf (c :: a) = true
+  · rw [if_pos hp1] at h
+    obtain ⟨rfl, a', rfl⟩ := pre3_true _ _ _ _ _ hp1
+    exact strTok_inv [117, 56, 34] a' bol sp t r (by simp) h
+  rw [if_neg hp1] at h
+  by_cases hp2 : [117, 34].isPrefixOf (c :: a) = true
+  · rw [if_pos hp2] at h
+    obtain ⟨rfl, a', rfl⟩ := pre2_true _ _ _ _ hp2
+    exact strTok_inv [117, 34] a' bol sp t r (by simp) h
+  rw [if_neg hp2] at h
+  by_cases hp3 : [76, 34].isPrefixOf (c :: a) = true
+  · rw [if_pos hp3] at h
+    obtain ⟨rfl, a', rfl⟩ := pre2_true _ _ _ _ hp3
+    exact strTok_inv [76, 34] a' bol sp t r (by simp) h
+  rw [if_neg hp3] at h
+  by_cases hp4 : [85, 34].isPrefixOf (c :: a) = true
+  · rw [if_pos hp4] at h
+    obtain ⟨rfl, a', rfl⟩ := pre2_true _ _ _ _ hp4
+    exact strTok_inv [85, 34] a' bol sp t r (by simp) h
+  rw [if_neg hp4] at h
+  by_cases hap : (c == 39) = true
+  · rw [if_pos hap] at h
+    have := eq_of_beq hap; subst this
+    exact chrTok_inv [39] a bol sp t r (by simp) h
+  rw [if_neg hap] at h
+  by_cases hp5 : [117, 39].isPrefixOf (c :: a) = true
+  · rw [if_pos hp5] at h
+    obtain ⟨rfl, a', rfl⟩ := pre2_true _ _ _ _ hp5
+    exact chrTok_inv [117, 39] a' bol sp t r (by simp) h
+  rw [if_neg hp5] at h
+  by_cases hp6 : [76, 39].isPrefixOf (c :: a) = true
+  · rw [if_pos hp6] at h
+    obtain ⟨rfl, a', rfl⟩ := pre2_true _ _ _ _ hp6
+    exact chrTok_inv [76, 39] a' bol sp t r (by simp) h
+  rw [if_neg hp6] at h
+  by_cases hp7 : [85, 39].isPrefixOf (c :: a) = true
+  · rw [if_pos hp7] at h
+    obtain ⟨rfl, a', rfl⟩ := pre2_true _ _ _ _ hp7
+    exact chrTok_inv [85, 39] a' bol sp t r (by simp) h
+  rw [if_neg hp7] at h
+  by_cases hid : isIdent1 c = true
+  · rw [if_pos hid] at h
+    simp only at h
+    injection h with h1 h2
+    subst h1; subst h2
+    exact ⟨rfl, rfl, by simp [identTake_partition a], by simp⟩
+  rw [if_neg hid] at h
+  simp only at h
+  by_cases hn0 : (readPunct (c :: a) == 0) = true
+  · rw [if_pos hn0] at h; cases h
+  rw [if_neg hn0] at h
+  injection h with h1 h2
+  subst h1; subst h2
+  refine ⟨rfl, rfl, List.take_append_drop _ _, ?_⟩
+  have : readPunct (c :: a) ≠ 0 := by simpa using hn0
+  obtain ⟨n, hn⟩ : ∃ n, readPunct (c :: a) = n + 1 := ⟨readPunct (c :: a) - 1, by omega⟩
+  simp [hn]
 
 
 end ChibiVerif.Lex
